@@ -4,10 +4,10 @@ from common import *
 
 LENS = 'cat'
 TRACE_MODULE = 'Trace_IggyCatalogue'
-FAMILIES = {'C05': ['streams', 'topics', 'groups', 'users'], 'C06': ['streams', 'topics', 'groups', 'users']}
+FAMILIES = {'C05': ['streams', 'topics', 'groups', 'seeded', 'users'], 'C06': ['streams', 'topics', 'groups', 'seeded', 'users']}
 
 BASE = dict(SIds='{0}', SNames='{"sa"}', TIds='{0}', TNames='{"ta"}', GIds='{0}', GNames='{"ga"}', UNames='{"alice"}',
-            Clients='{1}', MaxId=3)
+            Clients='{1}', MaxId=3, Seeded='FALSE')
 GEN = {
     'streams': dict(consts=dict(BASE, SIds='{0,2}', SNames='{"sa","sb"}',
                                 Ops='{"create_stream","update_stream","delete_stream","restart"}'), depth=3, gen=(2, 3), transports=['tcp', 'http']),
@@ -17,6 +17,10 @@ GEN = {
     'groups': dict(consts=dict(BASE, GIds='{0,2}', GNames='{"ga","gb"}', Clients='{1,2}',
                                Ops='{"create_stream","create_topic","create_group","delete_group","join","leave","disconnect","delete_topic","delete_stream","restart"}'),
                    depth=4, gen=(1, 2), transports=['tcp']),
+    # from a populated catalogue (two topics with same-named groups, a client member of both): every command, depth 2
+    'seeded': dict(consts=dict(BASE, TIds='{0}', TNames='{"ta","tb"}', GNames='{"ga"}', Clients='{1,2}', Seeded='TRUE',
+                               Ops='{"delete_topic","delete_group","leave","disconnect","delete_stream","purge_topic","delete_partitions","create_partitions","send","restart","update_topic","join"}'),
+                   depth=2, gen=(1, 2), transports=['tcp']),
     'users': dict(consts=dict(BASE, UNames='{"alice","bobby"}', Ops='{"create_user","update_user","delete_user","restart"}'),
                   depth=3, gen=(2, 3), transports=['tcp', 'http']),
 }
@@ -86,6 +90,13 @@ REGRESSIONS = [
     ('delete-more-partitions-than-exist', 'tcp', [dict(op='create_stream', id=0, name='sa'),
                                                   dict(op='create_topic', s=dict(by='id', v=1), id=0, name='ta', parts=1),
                                                   dict(op='delete_partitions', s=dict(by='id', v=1), t=dict(by='id', v=1), k=4), dict(op='restart')]),
+    ('purge-then-restart', 'tcp', [dict(op='create_stream', id=0, name='sa'),
+                                   dict(op='create_topic', s=dict(by='id', v=1), id=0, name='ta', parts=2),
+                                   dict(op='send', s=dict(by='id', v=1), t=dict(by='id', v=1), p=1, k=2),
+                                   dict(op='purge_topic', s=dict(by='id', v=1), t=dict(by='id', v=1)), dict(op='restart'),
+                                   dict(op='send', s=dict(by='id', v=1), t=dict(by='id', v=1), p=2, k=2),
+                                   dict(op='purge_stream', s=dict(by='name', v='sa')), dict(op='restart'),
+                                   dict(op='send', s=dict(by='id', v=1), t=dict(by='id', v=1), p=1, k=1)]),
     ('D9-two-memberships-delete-stream', 'tcp', [dict(op='create_stream', id=0, name='sa'),
                                                  dict(op='create_topic', s=dict(by='id', v=1), id=0, name='ta', parts=1),
                                                  dict(op='create_group', s=dict(by='id', v=1), t=dict(by='id', v=1), id=0, name='ga'),
